@@ -117,6 +117,9 @@ def catalogue():
         "comprehension-over-non-list": [A.let(v("f_c"), A.listc(v("f_y"), "f_y", s("x")))],
         "nullable-regex": [A.scan(s("aaa"), ("a*", [A.node(v("f_n"))]))],
         "nullable-regex-second-arm": [A.scan(s("aaa"), ("a", [A.node(v("f_n"))]), ("(b)?", [A.node(v("f_n2"))]))],
+        "scan-outer-mutable-in-nested-block": mv + [A.iff(([A.cond("bool", A.true())], [A.scan(v("fmv"), ("a", [A.node(v("f_n"))]))]))],
+        "if-outer-mutable-in-for-body": [A.mut(v("f_b"), A.true()), A.forin("f_o", A.lst(i(1)), [A.iff(([A.cond("bool", v("f_b"))], [A.node(v("f_n"))]))])],
+        "for-outer-mutable-in-scan-arm": mvl + [A.scan(s("ab"), ("a", [A.forin("f_x", v("fml"), [A.node(v("f_n"))])]))],
         "some-on-scoped": [A.iff(([A.cond("some", A.svar(A.cap("__ANYCAP__"), "f_sv"))], [A.node(v("f_n"))]))],
         "none-on-call-of-scoped": [A.iff(([A.cond("none", A.call("is-null", A.svar(A.cap("__ANYCAP__"), "f_sv")))], [A.node(v("f_n"))]))],
         "some-on-mutable-string": mv + [A.iff(([A.cond("some", v("fmv"))], [A.node(v("f_n"))]))],
